@@ -291,11 +291,14 @@ struct Tree
       return "parent-of-root";
     return "above-root";
   }
-  std::string rel(const std::string &p) const // strip <BASE> for display
+  std::string rel(const std::string &p) const // strip <BASE>, abbreviate the 255-byte component (display only)
   {
-    if (p.compare(0, base.size(), base) == 0)
-      return "{BASE}" + p.substr(base.size());
-    return p;
+    std::string o = p.compare(0, base.size(), base) == 0 ? "{BASE}" + p.substr(base.size()) : p;
+    const std::string l = L255();
+    size_t q;
+    while ((q = o.find(l)) != std::string::npos)
+      o.replace(q, l.size(), "<L255>");
+    return o;
   }
 };
 
@@ -372,6 +375,7 @@ struct ExtRegistry
 struct Verdict
 {
   bool bad = false;
+  bool viaGzip = false; // the offending bytes are the gzip variant's
   std::string clause, where, detail;
 };
 
@@ -392,6 +396,7 @@ inline Verdict judge(const Tree &t, const Lookup &l, const std::string &rootCano
     if (w == Tree::INSIDE)
       return;
     v.bad = true;
+    v.viaGzip = std::string(which) == "gzipBytes";
     v.where = t.whereLabel(bytes);
     if (w == Tree::OUTSIDE)
     {
